@@ -20,7 +20,7 @@ ENGINES = {
     "C34": ("sim.engines.pipe", "C34Engine"),
 }
 
-NOJIT = {"C36"}
+NOJIT = {"C36", "C09"}  # C09: main batch without JIT (cheap forks for process isolation); its sweep re-runs with JIT
 
 
 def main():
@@ -59,6 +59,15 @@ def main():
     os.environ.setdefault("MKL_NUM_THREADS", "1")
 
     import importlib
+
+    # tqdm starts a monitor THREAD at the first progress bar (even a disabled one) which wakes every 10 s and takes
+    # tqdm's class-level lock; a fork() that lands in that instant leaves the child with a lock owned by a thread that
+    # does not exist there, and the child hangs at its next progress bar.  The engines fork a lot (worker pools,
+    # C09's process isolation), so the monitor is switched off before tsdate is imported.  (Found as an intermittent
+    # hang of C09: children stuck in tqdm.__new__ -> RLock.acquire.)
+    import tqdm.std
+
+    tqdm.std.tqdm.monitor_interval = 0
 
     from sim import runner
 
